@@ -5,6 +5,8 @@ import Proofs.DnssecRrsig
 import Proofs.DnssecBitmap
 import Proofs.DnssecChain
 import Proofs.DnssecCanon
+import Proofs.DnssecOrder
+import Proofs.DnssecNsec3
 /-!
 # C15 — key-free DNSSEC computations equal an independent RFC 4034/5155/6840/8976 reference
 
@@ -31,15 +33,15 @@ def rfc6840_5_1_removed : List Nat := [47]
 
 def mustLower (ty : Nat) : Bool := rfc4034_6_2.contains ty && !rfc6840_5_1_removed.contains ty
 
-/-- (class, type) pairs of the unchanged tree that deviate (recorded in KNOWN_FINDINGS.json, reported by the
-oracle while they exist): LP (class-independent implementation) and Chaosnet A. -/
-def knownDeviations : List (Nat × Nat) := [(255, 107), (3, 1)]
+/-- (class, type) pairs that deviate (recorded in KNOWN_FINDINGS.json, reported by the oracle while it exists):
+Chaosnet A only.  LP was repaired in dnspython commit 2936f22 and is no longer excluded. -/
+def knownDeviations : List (Nat × Nat) := [(3, 1)]
 
 /-- "for all record sets of all types": every implemented (class, type) pair was probed; a type added to
 dnspython without a specimen in `harness/extract_C15.py` makes this fail. -/
 theorem canon_table_complete : ConstsC15.unprobed = [] := by decide
 
-/- Full statement (fails today for LP and CH A, DESIGN D12/D17):
+/- Full statement (fails today for Chaosnet A only, DESIGN D17; LP, DESIGN D12, is repaired):
    `∀ e ∈ ConstsC15.canonTable, e.2.2.2.1 = mustLower e.2.1`. -/
 /-- "only names inside the RDATA of the types listed in RFC 4034 §6.2 (minus NSEC, per RFC 6840) are
 lower-cased": for every embedded-name field of every implemented type, `to_digestable` lower-cases it iff the
@@ -79,10 +81,11 @@ example : WfName [[77, 120]] ∧ nameWireFile [[77, 120]] (some [[69, 88], []]) 
 example : allAbs [Field.raw [0, 10], Field.name [[77, 120], [69, 88], []]] := by
   intro n hn; simp at hn; subst hn; decide
 
-/-- MX lower-cases, NSEC and SVCB do not, LP (recorded deviation) does -/
+/-- MX lower-cases; NSEC, SVCB and (since commit 2936f22) LP do not -/
 example : toDigestable ConstsC15.canonTable 1 15 [Field.raw [0, 10], Field.name [[77, 88], []]] none = .ok [0, 10, 2, 109, 120, 0]
     ∧ toDigestable ConstsC15.canonTable 1 47 [Field.name [[77, 88], []], Field.raw [0, 1, 64]] none = .ok [2, 77, 88, 0, 0, 1, 64]
-    ∧ toDigestable ConstsC15.canonTable 1 64 [Field.raw [0, 1], Field.name [[77, 88], []]] none = .ok [0, 1, 2, 77, 88, 0] := by
+    ∧ toDigestable ConstsC15.canonTable 1 64 [Field.raw [0, 1], Field.name [[77, 88], []]] none = .ok [0, 1, 2, 77, 88, 0]
+    ∧ toDigestable ConstsC15.canonTable 1 107 [Field.raw [0, 1], Field.name [[77, 88], []]] none = .ok [0, 1, 2, 77, 88, 0] := by
   decide
 
 /-! ## key tag -/
@@ -119,19 +122,33 @@ example : insSort bytesLe [[1, 2], [1], [0, 255], []] = [[], [0, 255], [1], [1, 
 
 /-! ## RRSIG signing input -/
 
-/-- "the RRSIG signing input including wildcard label reduction … equals an independent RFC reference": for an
-absolute signer and owner, a label count not above the owner's and (for a wildcard owner) equal to it, the data
-handed to the signature algorithm is RFC 4034 §3.1.8.1's `RRSIG_RDATA | RR(1) | RR(2) …` with the owner of RFC
-4035 §5.3.2, TTL = Original TTL, RRs in canonical order — for both variants of the signer expression. -/
-theorem rrsig_input_is_rfc (v : SignerVariant) (t : CanonTable) (sig : RRSig) (origin : Option Name) (rrname : Name)
+/-- "the RRSIG signing input including wildcard label reduction … equals an independent RFC reference": signer
+and owner are completed by the origin when relative (`hs`, `hr`); for a label count not above the owner's and (for
+a wildcard owner) equal to it, the data handed to the signature algorithm is RFC 4034 §3.1.8.1's
+`RRSIG_RDATA | RR(1) | RR(2) …` with the owner of RFC 4035 §5.3.2, TTL = Original TTL, RRs in canonical order.
+(Full form since commit b931905: relative signers included.  `hw`: `rrsig.to_wire(origin=signer)` must succeed.) -/
+theorem rrsig_input_is_rfc (t : CanonTable) (sig : RRSig) (origin : Option Name) (rrname : Name)
+    (rdtype rdclass : Nat) (rdatas : List Rdata) (ds : List Bytes) (signer owner : Name) (w : Bytes)
+    (hs : derelativizeD sig.signer origin = .ok signer) (hsa : isAbs signer = true)
+    (hw : nameWireFile sig.signer (some signer) false = .ok w)
+    (hr : derelativizeD rrname origin = .ok owner) (hoa : isAbs owner = true)
+    (hl : sig.labels ≤ Rfc.labelCount owner)
+    (hwild : owner.head? = some wildLabel → sig.labels = Rfc.labelCount owner)
+    (hd : mapExcept (fun rd => toDigestable t rdclass rdtype rd origin) rdatas = .ok ds) :
+    rrsigData t sig origin rrname rdtype rdclass rdatas =
+      .ok (Rfc.sigData sig signer owner rdtype rdclass (insSort bytesLe ds)) :=
+  rrsigData_eq_rfc_rel t sig origin rrname rdtype rdclass rdatas ds signer owner w hs hsa hw hr hoa hl hwild hd
+
+/-- the special case of absolute names (no origin needed) -/
+theorem rrsig_input_is_rfc_absolute (t : CanonTable) (sig : RRSig) (origin : Option Name) (rrname : Name)
     (rdtype rdclass : Nat) (rdatas : List Rdata) (ds : List Bytes)
     (hs : isAbs sig.signer = true) (hr : isAbs rrname = true)
     (hl : sig.labels ≤ Rfc.labelCount rrname)
     (hw : rrname.head? = some wildLabel → sig.labels = Rfc.labelCount rrname)
     (hd : mapExcept (fun rd => toDigestable t rdclass rdtype rd origin) rdatas = .ok ds) :
-    rrsigData v t sig origin rrname rdtype rdclass rdatas =
+    rrsigData t sig origin rrname rdtype rdclass rdatas =
       .ok (Rfc.sigData sig sig.signer rrname rdtype rdclass (insSort bytesLe ds)) :=
-  rrsigData_eq_rfc v t sig origin rrname rdtype rdclass rdatas ds hs hr hl hw hd
+  rrsigData_eq_rfc t sig origin rrname rdtype rdclass rdatas ds hs hr hl hw hd
 
 /-- wildcard label reduction: when the Labels field is smaller than the owner's label count the owner that is
 digested is `*` followed by the rightmost `labels` labels (and the root). -/
@@ -141,17 +158,17 @@ theorem wildcard_reduction (rrname : Name) (labels : Nat) (h : labels ≠ Rfc.la
 
 /-- error cases: a Labels field above the owner's label count (RFC 4035 §5.3.1), or a wildcard owner whose
 Labels field is not its label count, raises ValidationFailure. -/
-theorem rrsig_bad_labels_rejected (v : SignerVariant) (t : CanonTable) (sig : RRSig) (origin : Option Name)
+theorem rrsig_bad_labels_rejected (t : CanonTable) (sig : RRSig) (origin : Option Name)
     (rrname : Name) (rdtype rdclass : Nat) (rdatas : List Rdata)
     (hs : isAbs sig.signer = true) (hr : isAbs rrname = true)
     (hbad : sig.labels > Rfc.labelCount rrname ∨
             (rrname.head? = some wildLabel ∧ sig.labels ≠ Rfc.labelCount rrname)) :
-    rrsigData v t sig origin rrname rdtype rdclass rdatas = .error .validation :=
-  rrsigData_rejects v t sig origin rrname rdtype rdclass rdatas hs hr hbad
+    rrsigData t sig origin rrname rdtype rdclass rdatas = .error .validation :=
+  rrsigData_rejects t sig origin rrname rdtype rdclass rdatas hs hr hbad
 
 /-- non-vacuity: `b.a.Example.` with Labels = 2 is digested as `*.a.example.`; A records in octet order -/
 example :
-    rrsigData .asShipped ConstsC15.canonTable
+    rrsigData ConstsC15.canonTable
       { typeCovered := 1, algorithm := 8, labels := 2, originalTtl := 300, expiration := 2, inception := 1, keyTag := 7,
         signer := [[69, 120], []] } none [[98], [97], [69, 120], []] 1 1
       [[Field.raw [10, 0, 0, 2]], [Field.raw [10, 0, 0, 1]]] =
@@ -160,13 +177,15 @@ example :
         signer := [[69, 120], []] } [[69, 120], []] [[98], [97], [69, 120], []] 1 1 [[10, 0, 0, 1], [10, 0, 0, 2]])
     ∧ Rfc.sigOwner [[98], [97], [69, 120], []] 2 = [[42], [97], [69, 120], []] := by decide
 
-/-- The recorded defect (KNOWN_FINDINGS `relative-signer-prefix-doubled`): with the expression as shipped a
-relative signer `sub` under origin `ex.` is digested as `sub.sub.ex.`; the intended expression gives `sub.ex.`. -/
+/-- non-vacuity of the relative case (the input of the defect repaired in b931905): signer `s` and owner `w`
+under origin `e.`: the hypotheses hold and the signer field is `s.e.`, once -/
 example :
     let sig : RRSig := { typeCovered := 1, algorithm := 8, labels := 2, originalTtl := 0, expiration := 0, inception := 0,
                          keyTag := 0, signer := [[115]] }
-    (rrsigData .asShipped [] sig (some [[101], []]) [[119], [101], []] 1 1 []).toOption.map (·.drop 18) = some [1, 115, 1, 115, 1, 101, 0]
-    ∧ (rrsigData .intended [] sig (some [[101], []]) [[119], [101], []] 1 1 []).toOption.map (·.drop 18) = some [1, 115, 1, 101, 0] := by
+    derelativizeD sig.signer (some [[101], []]) = .ok [[115], [101], []]
+    ∧ nameWireFile sig.signer (some [[115], [101], []]) false = .ok [1, 115, 1, 115, 1, 101, 0]
+    ∧ derelativizeD [[119]] (some [[101], []]) = .ok [[119], [101], []]
+    ∧ (rrsigData [] sig (some [[101], []]) [[119]] 1 1 []).toOption.map (·.drop 18) = some [1, 115, 1, 101, 0] := by
   decide
 
 /-! ## DS / CDS -/
@@ -199,6 +218,57 @@ theorem nsec3_is_rfc (H : Bytes → Bytes) (name : Name) (salt : Bytes) (iterati
   simp only [IH, Nat.zero_add] at h
   simp [nsec3Hash, nameWireNoFile, ha', h, b32encode_translate]
 
+/-- "`nsec3_hash` input normalisation", salt: `None`, a hexadecimal string (either case) and the octets themselves
+denote the same salt; a string of odd length or with a non-hex character (such as the presentation form `-`) is
+refused with ValueError. -/
+theorem nsec3_salt_forms (upper : Bool) (b : Bytes) (hb : ∀ x ∈ b, x < 256) :
+    saltEncode (.text (hexText upper b)) = .ok b ∧ saltEncode (.bytes b) = .ok b ∧ saltEncode .none = .ok [] :=
+  saltEncode_forms upper b hb
+
+example : hexText true [171, 205, 1] = "ABCD01".toList.map Char.toNat ∧ hexText false [171, 205, 1] = "abcd01".toList.map Char.toNat
+    ∧ saltEncode (.text [45]) = .error .value ∧ saltEncode (.text [97, 98, 32]) = .error .value
+    ∧ saltEncode (.text [97, 98, 32, 32]) = .ok [171] := by decide
+
+/-- "`nsec3_hash` input normalisation", whole call: with the algorithm given as 1 or as the text `SHA1` in any
+case, the domain given as a name or as text that `from_text` parses to `n`, and the salt in any accepted form
+denoting `s`, the result is base32hex of RFC 5155 §5's `IH(s, canonical wire form of n, iterations)`. -/
+theorem nsec3_args_is_rfc (H : Bytes → Bytes) (domain : DomainArg) (salt : SaltArg) (iterations : Nat) (alg : AlgArg)
+    (n : Name) (s : Bytes) (halg : algDecode alg = .ok 1) (hsalt : saltEncode salt = .ok s)
+    (hdom : domainDecode domain = .ok n) (ha : isAbs n = true) :
+    nsec3HashArgs H domain salt iterations alg =
+      .ok (b32encode b32Hex (IH H s (toWire (lowerName n)) iterations)) := by
+  unfold nsec3HashArgs
+  simp only [halg, hsalt, hdom, ne_eq, not_true_eq_false, if_false]
+  exact nsec3_is_rfc H n s iterations ha
+
+example : algDecode (.text [115, 72, 97, 49]) = .ok 1 ∧ algDecode (.num 1) = .ok 1 ∧ algDecode (.text [83, 72, 65, 50]) = .error .value
+    ∧ domainDecode (.text [65, 46, 98]) = .ok [[65], [98], []] ∧ domainDecode (.text [64]) = .ok [[]] := by decide
+
+/-- any other algorithm number is refused before anything else is looked at -/
+theorem nsec3_other_algorithm_rejected (H : Bytes → Bytes) (domain : DomainArg) (salt : SaltArg) (iterations a : Nat)
+    (h : a ≠ 1) : nsec3HashArgs H domain salt iterations (.num a) = .error .value := by
+  simp [nsec3HashArgs, algDecode, h]
+
+/-- "NSEC3 owner name construction" (RFC 5155 §3): `from_text(nsec3_hash(…), zone)` is the base32hex hash as a
+single label prepended to the zone name, valid whenever that name fits the length limits — the hash text never
+needs escaping and is never mistaken for `@`.  (`hne`: the hash function returns at least one octet.) -/
+theorem nsec3_owner_is_rfc (H : Bytes → Bytes) (domain : DomainArg) (salt : SaltArg) (iterations : Nat) (alg : AlgArg)
+    (n : Name) (s : Bytes) (zone : Name) (halg : algDecode alg = .ok 1) (hsalt : saltEncode salt = .ok s)
+    (hdom : domainDecode domain = .ok n) (ha : isAbs n = true)
+    (hne : IH H s (toWire (lowerName n)) iterations ≠ []) :
+    nsec3Owner H domain salt iterations alg zone =
+      liftName (validate (b32encode b32Hex (IH H s (toWire (lowerName n)) iterations) :: zone)) := by
+  unfold nsec3Owner
+  rw [nsec3_args_is_rfc H domain salt iterations alg n s halg hsalt hdom ha]
+  simp only
+  have hlen := b32encode_length_ge _ hne
+  rw [fromText_plain _ zone (b32encode_ok _)]
+  · intro h; rw [h] at hlen; simp at hlen
+  · intro h; rw [h] at hlen; simp at hlen
+
+example : nsec3Owner (fun x => x.take 5) (.text [65, 46]) (.text [97, 98]) 2 (.text [115, 104, 97, 49]) [[101, 120], []] =
+    .ok [[48, 53, 71, 71, 49, 65, 84, 66], [101, 120], []] := by decide
+
 /-- base32hex alphabet `0-9A-V` -/
 example : (List.range 32).map b32Hex = "0123456789ABCDEFGHIJKLMNOPQRSTUV".toList.map Char.toNat := by decide
 
@@ -225,52 +295,49 @@ theorem secure_sublist (c : NsecConsts) (origin : Name) (L : List ZNode) :
   refine ⟨List.filter_sublist, fun z => ?_⟩
   simp [secure, List.mem_filter]
 
-/- Full statement (fails today, DESIGN D13): the same with `v := .asShipped` and without the guard `hv`.
-   Counterexample below (`apex_only_gets_no_nsec`). -/
+/-- RFC 4035 §2.3 on what a node announces: all its types, except at a delegation point, where only NS and DS -/
+def rfcNsecTypes (c : NsecConsts) (origin : Name) (z : ZNode) : List Nat :=
+  if isCut c origin z then z.types.filter fun t => t == c.tNS || t == c.tDS else z.types
+
 /-- "the NSEC chain visits every authoritative name exactly once in canonical order with exact type bitmaps,
-skipping names beneath delegations": for a node list sorted in canonical order (`hsorted`; that `sorted()`
-delivers it is C06 + Python's contract) in which no earlier name is beneath a later one, `is_subdomain` is
-transitive and the names beneath a name follow it contiguously (`H1`, `H3`, `HC`: facts of the canonical order,
-decidable on any concrete list), the NSEC records added by `_sign_zone_nsec` are exactly the chain over the
-names not beneath a delegation (`secure`): one per such name, in list order, each pointing at the next, the
-last one at the origin, bitmap = the node's types ∪ {RRSIG, NSEC} (`bitmap_exact` says the encoding is exact).
-`hv`: with the test as shipped (`if last_secure:`) the last secure name must not be the empty name. -/
-theorem nsec_chain_partial (c : NsecConsts) (v : LastVariant) (origin : Name) (nodes : List ZNode) (ws : Bool)
-    (L : List ZNode)
-    (hsorted : L.Pairwise (fun a b => cmpOrder a.name b.name < 0))
-    (hlook : ∀ z ∈ L, lookupNode nodes z.name = some z)
-    (htypes : ∀ z ∈ L, z.types ≠ [])
-    (ho : origin ≠ [])
-    (H1 : L.Pairwise (fun a b => subOf a b = false))
-    (H3 : ∀ x ∈ L, ∀ y ∈ L, ∀ z ∈ L, subOf x y = true → subOf y z = true → subOf x z = true)
-    (HC : contig L = true)
-    (hv : v = .intended ∨ ∀ z, (secure c origin L).getLast? = some z → z.name ≠ []) :
-    nsecsOf (walkSorted c v origin nodes ws L) = chain c origin (secure c origin L) origin :=
-  walk_chain c v origin nodes ws L hlook htypes (tail_nonempty_of_sorted L hsorted) ho H1 H3 HC hv
+skipping names beneath delegations" — unconditional in the order (C06 supplies: `sorted` output is strictly
+increasing for distinct names, no name sorts before a name it is beneath, `is_subdomain` is transitive, the names
+beneath a name follow it contiguously).  For any zone content whose node names are pairwise distinct (they are
+dictionary keys) and whose nodes are non-empty: the NSEC records `_sign_zone_nsec` adds are exactly the chain over
+`secure` (the names of the zone, in canonical order, that are not beneath a delegation): one record per such name,
+each pointing at the next, the last one at the origin, bitmap = announced types ∪ {RRSIG, NSEC}
+(`bitmap_exact`: encoded exactly).  (Full form since commit 67da86e: the apex-only zone included.) -/
+theorem nsec_chain (c : NsecConsts) (origin : Name) (nodes : List ZNode) (ws : Bool)
+    (hd : DistinctNames nodes) (ht : ∀ z ∈ nodes, z.types ≠ []) (ho : origin ≠ []) :
+    nsecsOf (signZoneNsec c origin nodes ws) = chain c origin (secure c origin (sortNodes nodes)) origin :=
+  signZone_chain c origin nodes ws hd ht ho
 
-/-- the full statement for the intended test (`is not None`), and with the node table being the sorted list itself -/
-theorem nsec_chain_intended (c : NsecConsts) (origin : Name) (ws : Bool) (L : List ZNode)
-    (hsorted : L.Pairwise (fun a b => cmpOrder a.name b.name < 0))
-    (htypes : ∀ z ∈ L, z.types ≠ [])
-    (ho : origin ≠ [])
-    (H1 : L.Pairwise (fun a b => subOf a b = false))
-    (H3 : ∀ x ∈ L, ∀ y ∈ L, ∀ z ∈ L, subOf x y = true → subOf y z = true → subOf x z = true)
-    (HC : contig L = true) :
-    nsecsOf (walkSorted c .intended origin L ws L) = chain c origin (secure c origin L) origin :=
-  walk_chain c .intended origin L ws L (lookup_of_sorted L hsorted) htypes (tail_nonempty_of_sorted L hsorted) ho
-    H1 H3 HC (Or.inl rfl)
+/-- what `secure` ranges over: a permutation of the nodes, strictly increasing in the RFC 4034 §6.1 order -/
+theorem sorted_nodes_canonical (nodes : List ZNode) (hd : DistinctNames nodes) :
+    (sortNodes nodes).Perm nodes ∧
+    (sortNodes nodes).Pairwise (fun a b => NameOrder.canonLt a.name b.name) := by
+  refine ⟨insSort_perm _ _, (sortNodes_sorted nodes hd).imp ?_⟩
+  intro a b h
+  exact (NameOrder.cmpOrder_lt_iff a.name b.name).1 h
 
-/-- `sign_zone` sorts first: the walk runs over a permutation of the nodes -/
-theorem sign_zone_sorts (c : NsecConsts) (v : LastVariant) (origin : Name) (nodes : List ZNode) (ws : Bool) :
-    signZoneNsec c v origin nodes ws =
-        walkSorted c v origin nodes ws (insSort (fun a b => nameLe a.name b.name) nodes)
-      ∧ (insSort (fun a b => nameLe a.name b.name) nodes).Perm nodes :=
-  ⟨rfl, insSort_perm _ _⟩
+/- Full statement (fails today, KNOWN_FINDINGS `non-authoritative-type-at-delegation-point`):
+   `∀ c origin z, nsecTypes c origin z = rfcNsecTypes c origin z` for the code as shipped (`c.cutTypes = false`). -/
+/-- "exact type bitmaps", which types: the announced types are RFC 4035 §2.3's except — as shipped — at a
+delegation point, where dnspython announces every rdataset of the node (recorded finding); with the intended
+behaviour (`cutTypes`) they agree everywhere. -/
+theorem nsec_types_is_rfc_partial (c : NsecConsts) (origin : Name) (z : ZNode)
+    (h : c.cutTypes = true ∨ isCut c origin z = false) :
+    nsecTypes c origin z = rfcNsecTypes c origin z := by
+  unfold nsecTypes rfcNsecTypes
+  rcases h with h | h
+  · simp [h, isCut]
+  · have h' : (z.types.contains c.tNS && !(nameEq z.name origin) && truthy z.name) = false := h
+    rw [h, h']; simp
 
 def exConsts : NsecConsts := { tNS := 2, tDS := 43, tRRSIG := 46, tNSEC := 47 }
 
 /-- non-vacuity: zone `ex.` with apex, `a` (A), cut `sub` (NS, DS, glue A at the cut), glue `ns.sub`, and `zz`:
-all hypotheses hold, `ns.sub` is skipped, the chain is apex → a → sub → zz → apex -/
+the facts C06 supplies are visible on it, `ns.sub` is skipped, the chain is apex → a → sub → zz → apex -/
 def exZone : List ZNode :=
   [⟨[[101, 120], []], [6, 2]⟩, ⟨[[97], [101, 120], []], [1]⟩, ⟨[[115, 117, 98], [101, 120], []], [2, 43, 1]⟩,
    ⟨[[110, 115], [115, 117, 98], [101, 120], []], [1]⟩, ⟨[[122, 122], [101, 120], []], [1]⟩]
@@ -283,32 +350,25 @@ example : exZone.Pairwise (fun a b => cmpOrder a.name b.name < 0) ∧ (∀ z ∈
       [[[101, 120], []], [[97], [101, 120], []], [[115, 117, 98], [101, 120], []], [[122, 122], [101, 120], []]] := by
   decide
 
-/-- the remaining hypotheses of `nsec_chain_partial` on the same zone: the node table resolves every name, and
-the last secure name is not the empty name -/
-example : (∀ z ∈ exZone, lookupNode exZone z.name = some z) ∧
-    (∀ z, (secure exConsts [[101, 120], []] exZone).getLast? = some z → z.name ≠ []) := by
-  refine ⟨by decide, ?_⟩
-  intro z hz
-  have : (secure exConsts [[101, 120], []] exZone).getLast? = some ⟨[[122, 122], [101, 120], []], [1]⟩ := by decide
-  rw [this] at hz
-  cases hz
-  decide
+/-- the hypotheses of `nsec_chain` on the same zone given in another order -/
+example : DistinctNames exZone.reverse ∧ (∀ z ∈ exZone.reverse, z.types ≠ []) ∧ sortNodes exZone.reverse = exZone := by
+  refine ⟨?_, by decide, by decide⟩
+  unfold DistinctNames; decide
 
 /-- and the chain itself, as shipped and with the RFC 4035 §2.3 bitmap at the delegation point
 (KNOWN_FINDINGS `non-authoritative-type-at-delegation-point`): `sub` announces A (its glue) as shipped,
 only NS and DS when `cutTypes` is set -/
 example :
-    (nsecsOf (signZoneNsec exConsts .asShipped [[101, 120], []] exZone true)).map (fun r => (r.1, r.2.1)) =
+    (nsecsOf (signZoneNsec exConsts [[101, 120], []] exZone true)).map (fun r => (r.1, r.2.1)) =
       [([[101, 120], []], [[97], [101, 120], []]), ([[97], [101, 120], []], [[115, 117, 98], [101, 120], []]),
        ([[115, 117, 98], [101, 120], []], [[122, 122], [101, 120], []]), ([[122, 122], [101, 120], []], [[101, 120], []])]
     ∧ nsecTypes exConsts [[101, 120], []] ⟨[[115, 117, 98], [101, 120], []], [2, 43, 1]⟩ = [2, 43, 1]
     ∧ nsecTypes { exConsts with cutTypes := true } [[101, 120], []] ⟨[[115, 117, 98], [101, 120], []], [2, 43, 1]⟩ = [2, 43] := by
   decide
 
-/-- The recorded defect (DESIGN D13): a relativized zone whose only name is the apex `@` gets no NSEC with the
-test as shipped, one NSEC `@ → origin` with the intended test. -/
-example : nsecsOf (signZoneNsec exConsts .asShipped [[101, 120], []] [⟨[], [6, 2]⟩] true) = []
-    ∧ nsecsOf (signZoneNsec exConsts .intended [[101, 120], []] [⟨[], [6, 2]⟩] true) =
+/-- The case repaired in commit 67da86e (DESIGN D13): a relativized zone whose only name is the apex `@` gets
+one NSEC `@ → origin`. -/
+example : nsecsOf (signZoneNsec exConsts [[101, 120], []] [⟨[], [6, 2]⟩] true) =
         [([], [[101, 120], []], fromRdtypes [6, 2, 46, 47])] := by decide
 
 /-! ## ZONEMD -/
@@ -318,12 +378,41 @@ are, in ascending (type, covered type) order, all those of the node except — a
 and the RRSIG covering ZONEMD. -/
 theorem zonemd_rdatasets_hashed (tZONEMD : Nat) (originName name : Name) (rs : List ZRdataset) :
     let hashed := (insSort rdsLe rs).filter fun r => !zonemdExcluded tZONEMD originName name r
-    hashed.Pairwise (fun a b => rdsLe a b = true) ∧
     (∀ r, r ∈ hashed ↔ r ∈ rs ∧
         ¬ (nameEq name originName = true ∧ (r.rdtype = tZONEMD ∨ r.covers = tZONEMD))) := by
-  refine ⟨(insSort_pairwise rdsLe rdsLe_total rdsLe_trans rs).sublist List.filter_sublist, fun r => ?_⟩
+  refine fun r => ?_
   simp only [List.mem_filter, (insSort_perm rdsLe rs).mem_iff, zonemdExcluded]
   cases nameEq name originName <;> simp
+
+/-- "ZONEMD digests", order within an owner (RFC 8976 §3.3.1: RRsets ascending by type; RRSIGs — all of type 46
+— by their RDATA, which starts with the type covered): the rdatasets of a node enter the hash sorted by
+(type, covered type), whatever their order in the node. -/
+theorem zonemd_rdatasets_sorted_by_type_then_covers (tZONEMD : Nat) (originName name : Name) (rs : List ZRdataset) :
+    ((insSort rdsLe rs).filter fun r => !zonemdExcluded tZONEMD originName name r).Pairwise
+      (fun a b => a.rdtype < b.rdtype ∨ (a.rdtype = b.rdtype ∧ a.covers ≤ b.covers)) := by
+  have h := (insSort_pairwise rdsLe rdsLe_total rdsLe_trans rs).sublist
+    (List.filter_sublist (p := fun r => !zonemdExcluded tZONEMD originName name r))
+  exact h.imp (fun {a b} hab => by simpa [rdsLe] using hab)
+
+/-- and that sorted, filtered list is what `zonemdNode` hashes, rdataset by rdataset, after the owner name -/
+theorem zonemd_node_unfolds (tZONEMD : Nat) (t : CanonTable) (origin : Option Name) (originName : Name) (node : ZMNode)
+    (buf : Bytes) (h : nameDigestable node.name origin = .ok buf) :
+    zonemdNode tZONEMD t origin originName node =
+      concatExcept (((insSort rdsLe node.rdatasets).filter fun r => !zonemdExcluded tZONEMD originName node.name r).map
+        (zonemdRdataset t origin buf)) := by
+  simp [zonemdNode, h]
+
+/-- owners enter the hash in canonical order (RFC 8976 §3.3.1 via RFC 4034 §6.1), each exactly once -/
+theorem zonemd_nodes_sorted (nodes : List ZMNode) :
+    (insSort (fun a b => nameLe a.name b.name) nodes).Perm nodes ∧
+    (insSort (fun (a b : ZMNode) => nameLe a.name b.name) nodes).Pairwise (fun a b => cmpOrder a.name b.name ≤ 0) := by
+  refine ⟨insSort_perm _ _, ?_⟩
+  have := insSort_pairwise (fun (a b : ZMNode) => nameLe a.name b.name)
+    (fun a b => nameLe_total a.name b.name) (fun a b c => nameLe_trans a.name b.name c.name) nodes
+  exact this.imp (fun {a b} h => by simpa [nameLe] using h)
+
+example : (insSort rdsLe [⟨46, 15, 1, 0, []⟩, ⟨15, 0, 1, 0, []⟩, ⟨46, 1, 1, 0, []⟩, ⟨1, 0, 1, 0, []⟩]).map (fun r => (r.rdtype, r.covers)) =
+    [(1, 0), (15, 0), (46, 1), (46, 15)] := by decide
 
 /-- each hashed RR is `owner | type | class | TTL | RDLENGTH | RDATA` with the rdataset's TTL, RDATAs of one
 rdataset in canonical order (RFC 8976 §3.3.1, RFC 4034 §6) -/
@@ -336,6 +425,25 @@ theorem zonemd_rdataset_format (t : CanonTable) (origin : Option Name) (owner : 
   congr 2
   funext rd
   exact rrRecord_eq owner rds.rdtype rds.rdclass rds.ttl rd
+
+/-- "ZONEMD digests", scheme and hash-algorithm selection: the hash algorithms accepted are exactly RFC 8976
+§5.3's SHA-384 (1) and SHA-512 (2), the only scheme is SIMPLE (1); with both supported the digest input is the
+zone walk, otherwise the specific error is raised — algorithm first — and nothing is hashed. -/
+theorem zonemd_selection (tZ : Nat) (t : CanonTable) (origin : Name) (rel : Bool) (alg scheme : Nat) (nodes : List ZMNode) :
+    ConstsC15.zonemdHashes = [1, 2] ∧
+    zonemdCompute ConstsC15.zonemdHashes tZ t origin rel alg scheme nodes =
+      if alg ≠ 1 ∧ alg ≠ 2 then .error .unsupportedDigestHash
+      else if scheme ≠ 1 then .error .unsupportedDigestScheme
+      else zonemdInput tZ t origin rel nodes := by
+  have hh : ConstsC15.zonemdHashes = [1, 2] := by decide
+  refine ⟨hh, ?_⟩
+  unfold zonemdCompute
+  rw [hh]
+  by_cases h1 : alg = 1
+  · subst h1; simp
+  · by_cases h2 : alg = 2
+    · subst h2; simp
+    · simp [h1, h2]
 
 /-- unsupported hash algorithm / scheme are refused before anything is hashed -/
 theorem zonemd_unsupported (tZ : Nat) (t : CanonTable) (origin : Name) (rel : Bool) (alg scheme : Nat) (nodes : List ZMNode)
